@@ -1,12 +1,13 @@
 (* C10 -- Removal is complete and precise, and existence reports tell the truth.
-   Statements only; proofs in Proofs/RemovalProofs.v, RemovalProofs2.v, RemovalProofs3.v; model in Model/Removal.v. *)
+   Statements only; proofs in Proofs/RemovalProofs.v, RemovalProofs2.v, RemovalProofs3.v, RemovalProofsX.v; model in Model/Removal.v. *)
 From Coq Require Import NArith List Bool.
-From V Require Import Model.Removal Proofs.RemovalProofs Proofs.RemovalProofs2 Proofs.RemovalProofs3.
+From V Require Import Model.Removal Proofs.RemovalProofs Proofs.RemovalProofs2 Proofs.RemovalProofs3 Proofs.RemovalProofsX.
 Import ListNotations.
 Open Scope N_scope.
 
 (* A refused operation returns the state it was given: every operation, every argument, every state that satisfies the
-   datastore-bridge invariant `wf` (below), hence every state reached by a history whose steps are safe. *)
+   datastore-bridge invariant `wf` (below), hence every state reached by a history whose steps are safe -- with ONE exception that
+   the invariant does not exclude: an ingest naming an id the datastore already knows (`reingest_known`; refuted below). *)
 Theorem refused_unchanged : forall s o s' e, wf s -> reingest_known s o = false -> step s o = (s', Err e) -> s' = s.
 Proof. exact refused_unchanged_l. Qed.
 Print Assumptions refused_unchanged.
@@ -238,6 +239,101 @@ Proof.
 Qed.
 Print Assumptions exists_carried_truthful_refuted.
 
+(* REFUTED even under the invariant: an ingest that names a dataset the datastore holds is refused AFTER the file was copied over the
+   artifact of its first ref, and the rollback removes the file: the stored dataset stays RECORDED | DATASTORE with a location row,
+   its artifact is gone.  Replayed on the implementation (corpus 10): known finding K-C10-refused-reingest = /repo F-C01-reingest. *)
+Theorem refused_reingest_deletes_artifact_refuted : exists h d1 d2 r k s',
+  hist_safe init h = true /\ step (run_hist h) (Ingest d1 d2 r k) = (s', Err Conflict) /\
+  exists_flags (run_hist h) d1 = (true, true, true) /\ exists_flags s' d1 = (true, true, false) /\ located s' d1 = true /\ s' <> run_hist h.
+Proof.
+  exists [RegColl 0 Run; Put 0 0 0], 0, 1, 0, 0. eexists.
+  split; [vm_compute; reflexivity | split; [vm_compute; reflexivity | split; [vm_compute; reflexivity | split; [vm_compute; reflexivity | split; [vm_compute; reflexivity |]]]]].
+  vm_compute. discriminate.
+Qed.
+Print Assumptions refused_reingest_deletes_artifact_refuted.
+
+(* FUEL ADEQUACY.  `connected ch a x`: x is a or below a in the chain definitions (a walk of any length).  With more fuel than there
+   are chain definitions -- the model's cycle check uses 1 + their number, the correspondence check 2 + their number -- the two
+   fuelled searches compute exactly connectivity; no assumption on the definitions (cyclic ones included). *)
+Theorem reaches_fuel_adequate : forall f ch a b, (length ch < f)%nat -> (reaches f ch a b = true <-> connected ch a b).
+Proof. exact reaches_adequate. Qed.
+Print Assumptions reaches_fuel_adequate.
+
+Theorem chain_member_fuel_adequate : forall f s c d, (length (chains s) < f)%nat ->
+  (chain_member f s c d = true <-> exists x, connected (chains s) c x /\ member_of s x d = true).
+Proof. exact chain_member_adequate. Qed.
+Print Assumptions chain_member_fuel_adequate.
+
+Theorem fuel_irrelevant : forall f g s c d a b, (length (chains s) < f)%nat -> (length (chains s) < g)%nat ->
+  chain_member f s c d = chain_member g s c d /\ reaches f (chains s) a b = reaches g (chains s) a b.
+Proof.
+  intros f g s c d a b L1 L2. split; [apply chain_member_fuel_irrelevant; assumption |].
+  rewrite (reaches_fuel_irrelevant f) by exact L1. rewrite (reaches_fuel_irrelevant g) by exact L2. reflexivity.
+Qed.
+Print Assumptions fuel_irrelevant.
+
+(* setCollectionChain on a CHAINED parent with known children is refused with a cycle error EXACTLY when a child is the parent or
+   has the parent below it, and accepted exactly otherwise; the chain definitions are acyclic after EVERY history. *)
+Theorem setChain_cycle_check_exact : forall s c ch, ctype s c = Some Chain -> (forall x, In x ch -> ctype s x <> None) ->
+  (snd (step s (SetChain c ch)) = Err Cycle <-> exists x, In x ch /\ connected (chains s) x c) /\
+  (snd (step s (SetChain c ch)) = Ok <-> ~ exists x, In x ch /\ connected (chains s) x c).
+Proof. exact setchain_outcome. Qed.
+Print Assumptions setChain_cycle_check_exact.
+
+Theorem chains_acyclic_all_histories : forall h a l, walk (chains (run_hist h)) a l a -> l = [].
+Proof. exact acyclic_reachable. Qed.
+Print Assumptions chains_acyclic_all_histories.
+
+(* Butler.exists on a ref CARRYING datastore records: RECORDED and _ARTIFACT are always the plain flags; the whole report equals the
+   plain one -- i.e. exists_flags_spec holds for it -- EXACTLY when the records table still has a row for the dataset; in a
+   state reached by a safe history that is the case while the dataset is located or pending in the trash.  (Outside the guard:
+   exists_carried_truthful_refuted, known finding K-C10-exists-carried-records.) *)
+Theorem exists_carried_spec_guard : forall s d,
+  (exists_flags_carried s d = exists_flags s d <-> exists p, In (d, p) (recs s)) /\
+  fst (fst (exists_flags_carried s d)) = fst (fst (exists_flags s d)) /\ snd (exists_flags_carried s d) = snd (exists_flags s d).
+Proof.
+  intros s d. split; [| apply carried_other_flags]. rewrite carried_guard. apply has_rec_In.
+Qed.
+Print Assumptions exists_carried_spec_guard.
+
+Theorem exists_carried_truthful_while_held : forall h d, hist_safe init h = true ->
+  (exists_flags_carried (run_hist h) d = exists_flags (run_hist h) d <-> In d (loc (run_hist h)) \/ In d (trash (run_hist h))).
+Proof.
+  intros h d S. pose proof (wf_reachable h S) as W. rewrite carried_guard. split.
+  - apply (w_rec_somewhere _ W).
+  - intros [H | H]; [apply (w_loc_rec _ W) | apply (w_trash_rec _ W)]; exact H.
+Qed.
+Print Assumptions exists_carried_truthful_while_held.
+
+(* Datastore.trash called on its own.  Under the invariant the list form moves exactly the located targets; the SINGLE-REF form does
+   so only when the records exist and the artifact is present (else nothing happens); neither touches another dataset.  Without the
+   invariant: when a target has a stale trash row the whole move is rolled back. *)
+Theorem trash_single_ref_spec : forall s d, wf s ->
+  step s (Trash1 d) = (if artifact_present s d then trash_refs [d] s else s, Ok) /\
+  step s (Trash [d]) = (trash_refs [d] s, Ok) /\
+  (forall d', d' <> d -> obs (exec s (Trash1 d)) d' = obs s d').
+Proof.
+  intros s d W. split; [apply trash1_spec; exact W | split; [apply trash_list_spec; exact W |]].
+  intros d' Hn. unfold exec. rewrite trash1_spec by exact W. destruct (artifact_present s d); simpl; [| reflexivity].
+  apply trash_refs_obs_other. intros [E | []]. congruence.
+Qed.
+Print Assumptions trash_single_ref_spec.
+
+Theorem standalone_trash_rolled_back : forall s l d, In d l -> In d (loc s) -> In d (trash s) -> step s (Trash l) = (s, Ok).
+Proof. exact standalone_trash_rolled_back_l. Qed.
+Print Assumptions standalone_trash_rolled_back.
+
+(* TWO-REF INGEST: when accepted, both ids were unknown to the datastore, both are now RECORDED | DATASTORE | _ARTIFACT and located,
+   and their records name ONE artifact (so every removal theorem above is exercised with shared artifacts: demo_ingest). *)
+Theorem ingest_two_refs_share_artifact : forall s d1 d2 r k s', step s (Ingest d1 d2 r k) = (s', Ok) ->
+  d1 <> d2 /\ ctype s r = Some Run /\
+  has_rec s d1 = false /\ has_rec s d2 = false /\ ~ In d1 (loc s) /\ ~ In d2 (loc s) /\
+  rec_path s' d1 = Some (r, k) /\ rec_path s' d2 = Some (r, k) /\
+  exists_flags s' d1 = (true, true, true) /\ exists_flags s' d2 = (true, true, true) /\ located s' d1 = true /\ located s' d2 = true /\
+  colls s' = colls s /\ chains s' = chains s /\ tags s' = tags s /\ calibs s' = calibs s /\ trash s' = trash s.
+Proof. exact ingest_ok_l. Qed.
+Print Assumptions ingest_two_refs_share_artifact.
+
 (* ---------- non-vacuity ---------- *)
 Definition demo : list op :=
   [RegColl 0 Run; RegColl 1 Run; RegColl 2 Tagged; RegColl 4 Calib; Put 0 0 0; Put 1 0 1; Put 2 1 0; Tag 2 [0; 1];
@@ -266,3 +362,17 @@ Proof. vm_compute. repeat split; reflexivity. Qed.
 Example demo_bulk : let s := run_hist shared_artifact_history in
   exists_many_flags s [0; 1] 0 = (false, true, true) /\ exists_many_flags s [0; 1] 1 = (true, true, true) /\ In 0 (trash s).
 Proof. vm_compute. repeat split; try reflexivity. left. reflexivity. Qed.
+(* shared artifact: purge of one sharer keeps the artifact for the other; purge of the second deletes it; single-ref trash *)
+Definition demo3 : list op := [RegColl 0 Run; RegColl 5 Chain; RegColl 6 Chain; Put 5 0 2; Ingest 0 1 0 0; SetChain 6 [0]; SetChain 5 [6]].
+Example demo_ingest : let s := run_hist demo3 in let s1 := exec s (Prune [0] true true true []) in let s2 := exec s1 (Prune [1] true true true []) in
+  hist_safe init demo3 = true /\ rec_path s 0 = Some (0, 0) /\ rec_path s 1 = Some (0, 0) /\ ds_get s 1 = Some (0, 1) /\
+  exists_flags s1 0 = (false, false, false) /\ exists_flags s1 1 = (true, true, true) /\ obs s1 1 = obs s 1 /\ In (0, 0) (files s1) /\
+  exists_flags s2 1 = (false, false, false) /\ files s2 = [(0, 2)] /\
+  snd (step s (SetChain 6 [5])) = Err Cycle /\ connected (chains s) 5 0 /\ chain_member 3 s 5 1 = true /\ chain_member 3 s1 5 0 = false.
+Proof. vm_compute. repeat split; try reflexivity; try (left; reflexivity). exists [5; 6]. repeat econstructor. Qed.
+Example demo_trash1 : let s := run_hist (demo3 ++ [ExtDelete 0 2]) in
+  exec s (Trash1 5) = s /\ exec s (Trash1 7) = s /\ trash (exec s (Trash1 0)) = [0] /\ exec (exec s (Trash1 0)) (Trash1 0) = exec s (Trash1 0).
+Proof. vm_compute. repeat split; reflexivity. Qed.
+Example demo_stale_standalone_trash : let s := run_hist stale_trash_history in
+  In 0 (loc s) /\ In 0 (trash s) /\ exec s (Trash [0; 1]) = s /\ exec s (Trash1 0) = s.
+Proof. vm_compute. repeat split; try reflexivity; left; reflexivity. Qed.
